@@ -198,7 +198,11 @@ class ContinuousVariable(Variable):
         return self.lower_bound, self.upper_bound
 
     def correct(self, value: float | int) -> float:
-        return float(np.clip(float(value), self.lower_bound, self.upper_bound))
+        value = float(value)
+        if np.isnan(value):
+            # a NaN candidate has no closest bound: fall back to the lower bound instead of passing NaN on
+            value = self.lower_bound
+        return float(np.clip(value, self.lower_bound, self.upper_bound))
 
     def decode(self, value: float) -> float:
         return value
@@ -269,6 +273,9 @@ class DiscreteVariable(Variable):
 
     def correct(self, value: float | int) -> int:
         lb, ub = self.get_bounds()
+        value = float(value)
+        if np.isnan(value):
+            value = lb
         return int(np.clip(value, lb, ub))
 
     def decode(self, value: float | int) -> Any:
